@@ -40,6 +40,10 @@ type c15Case struct {
 	// ReadN: size asked of every Read (0 = 8192); smaller than the data collected while opening in a
 	// third of the cases
 	ReadN int `json:"read_n,omitempty"`
+	// PaceMS > 0: a slow server: the opening is sent in seven pieces PaceMS apart, so that it lasts
+	// longer than TimeoutSocket/2 in total while no single pause comes near the idle bound that ends
+	// the negotiation phase (TimeoutSocket/2 once a byte has arrived)
+	PaceMS int `json:"pace_ms,omitempty"`
 }
 
 func genC15(r *sim.Rng) *c15Case {
@@ -68,6 +72,11 @@ func genC15(r *sim.Rng) *c15Case {
 	}
 	if r.Chance(1, 4) {
 		c.Pre = [][]int{{255}, {255, 251}, {255, 253}, {255, 253, 3, 255}, {104, 105, 255, 254}, {255, 252}}[r.Intn(6)]
+	}
+	if r.Chance(1, 8) {
+		// a slow server; make sure a negotiation arrives late in the opening
+		c.PaceMS = 90
+		c.Toks = append(c.Toks, c15Tok{Kind: "data", B: 'x'}, c15Tok{Kind: "neg", V: 253, O: 31}, c15Tok{Kind: "data", B: 'y'})
 	}
 	total := len(renderToks(c.Toks))
 	for total > 0 {
@@ -151,13 +160,28 @@ func runC15Case(id string, c *c15Case) {
 			}
 		}()
 		rest := opening
-		for _, k := range c.Segs {
+		segs, pause := c.Segs, 2*time.Millisecond
+		if c.PaceMS > 0 {
+			pause = time.Duration(c.PaceMS) * time.Millisecond
+			piece := (len(opening) + 6) / 7
+			if piece < 1 {
+				piece = 1
+			}
+			segs = nil
+			for i := 0; i < 6; i++ {
+				segs = append(segs, piece)
+			}
+		}
+		for _, k := range segs {
 			if k > len(rest) {
 				k = len(rest)
 			}
+			if k == 0 {
+				break
+			}
 			_, _ = conn.Write(rest[:k])
 			rest = rest[k:]
-			time.Sleep(2 * time.Millisecond)
+			time.Sleep(pause)
 		}
 		if len(rest) > 0 {
 			_, _ = conn.Write(rest)
